@@ -1,5 +1,6 @@
 import Fabio.Driver.Proto
 import Fabio.Model.C19
+import Fabio.Model.C19Load
 namespace Fabio.Driver.C19
 open Lean Fabio.Driver Fabio.Model.C19
 
@@ -190,5 +191,71 @@ def timingH : Handler := fun inp impl => do
     return ({ model := m, agree := agree, spec := spec, nontrivial := decide (0 < tms),
               tag := tag ++ "/" ++ usedName tg ++ "/" ++ pathName ++ hcls } : Verdict).toJson
 
-def streams : List (String × Handler) := [("c19.fields", fieldsH), ("c19.timing", timingH), ("c19.binary", timingH)]
+def cfgJson (c : Cfg) : Json :=
+  Json.mkObj [("dial", Json.num (JsonNumber.fromInt c.dialTimeout)), ("rht", Json.num (JsonNumber.fromInt c.responseHeaderTimeout)),
+              ("keepalive", Json.num (JsonNumber.fromInt c.keepAliveTimeout)), ("idle", Json.num (JsonNumber.fromInt c.idleConnTimeout)),
+              ("maxconn", Json.num (JsonNumber.fromInt c.maxConn))]
+
+def optWant (j : Json) (k : String) : Option Int := (j.getObjValAs? Int k).toOption
+
+/-- the five (option name, what the generator meant, the value in a configuration, the value in a transport) -/
+def fiveOf (want : Json) : List (String × Option Int × (Cfg → Int) × (Transport → Int)) :=
+  [("dialtimeout", optWant want "dial", (·.dialTimeout), (·.dialTimeout)),
+   ("responseheadertimeout", optWant want "rht", (·.responseHeaderTimeout), (·.responseHeaderTimeout)),
+   ("keepalivetimeout", optWant want "keepalive", (·.keepAliveTimeout), (·.dialKeepAlive)),
+   ("idleconntimeout", optWant want "idle", (·.idleConnTimeout), (·.idleConnTimeout)),
+   ("maxconn", optWant want "maxconn", (·.maxConn), (·.maxIdleConnsPerHost))]
+
+/-- c19.load: model = `load` of the same texts, then `setConfig`, then the transports; spec = what `config.Load`
+returned and every transport built from it have, option by option, the number the generator meant. -/
+def loadH : Handler := fun inp impl => do
+  let args ← inp.getObjValAs? (List String) "args"
+  let env ← inp.getObjValAs? (List String) "env"
+  let propsJ ← inp.getObjValAs? (List (List String)) "props"
+  let props := propsJ.filterMap (fun kv => match kv with | [k, v] => some (k, v) | _ => none)
+  let want ← inp.getObjVal? "want"
+  let o ← optsOf (← inp.getObjVal? "target")
+  let some cmdline := splitArgs args | throw "a flag without a value: config.Load would exit"
+  let src : Sources := { cmdline := cmdline, env := env.filterMap envEntry, props := props }
+  let some cfg := load src | throw "a command-line value that does not parse: config.Load would exit"
+  let cell := setConfig Cell.init cfg
+  let p := newHTTPProxy cell
+  let tg := addTarget cell o
+  let m := Json.mkObj [("loaded", cfgJson cfg), ("default", transportJson p.transport), ("insecure", transportJson p.insecureTransport),
+                       ("route", optTransportJson tg.transport), ("target_skip", o.tlsSkipVerify)]
+  match impl.getObjVal? "loaded" with
+  | .error _ =>
+    return ({ model := m, agree := false, spec := true, nontrivial := false, tag := "harness-error" } : Verdict).toJson
+  | .ok lj =>
+    let loaded ← cfgOf lj
+    let dj ← impl.getObjVal? "default"
+    let ij ← impl.getObjVal? "insecure"
+    let rj ← impl.getObjVal? "route"
+    let built := [(← transportOf dj), (← transportOf ij), (← transportOf rj)].filterMap id
+    let noted := hasNote dj || hasNote ij || (!rj.isNull && hasNote rj)
+    let five := fiveOf want
+    let loadBad := five.filter (fun (_, w, fc, _) => match w with | some v => fc loaded != v | none => false)
+    let trBad := five.filter (fun (_, w, _, ft) => match w with | some v => built.any (fun t => ft t != v) | none => false)
+    let spec := loadBad.isEmpty && trBad.isEmpty && built.length ≥ 2 && !noted
+    let configured := ["proxy.dialtimeout", "proxy.responseheadertimeout", "proxy.keepalivetimeout", "proxy.idleconntimeout", "proxy.maxconn"].filter
+      (fun n => (rawValue src n).isSome)
+    let several := ["proxy.dialtimeout", "proxy.responseheadertimeout", "proxy.keepalivetimeout", "proxy.idleconntimeout", "proxy.maxconn"].any
+      (fun n => ((src.cmdline.filter (·.1 == n)).length + (if (lookupLast src.env (envName "FABIO_" n)).isSome then 1 else 0)
+                  + (if (lookupLast src.env (envName "" n)).isSome then 1 else 0) + (if (lookupLast src.props n).isSome then 1 else 0)) ≥ 2)
+    let listenerTimeouts := src.cmdline.any (fun (n, v) => n == "proxy.addr" && ((v.splitOn ";rt=").length > 1 || (v.splitOn ";wt=").length > 1))
+    let malformed := five.any (fun (_, w, _, _) => w.isNone)
+    let cls := if malformed then "malformed-value-stored-as-zero" else if several && listenerTimeouts then "precedence+listener-timeouts"
+               else if several then "precedence" else if listenerTimeouts then "listener-timeouts"
+               else if configured.isEmpty then "defaults" else "plain"
+    let tag :=
+      if spec then cls
+      else if noted then "dialer-not-observable"
+      else match loadBad, trBad with
+        | (n, _) :: _, _ => "load-changed-" ++ n
+        | [], (n, _) :: _ => "field-mismatch-" ++ n
+        | [], [] => "transport-missing"
+    return ({ model := m, agree := m == impl, spec := spec, nontrivial := configured.length ≥ 3, tag := tag } : Verdict).toJson
+
+def streams : List (String × Handler) :=
+  [("c19.fields", fieldsH), ("c19.timing", timingH), ("c19.binary", timingH), ("c19.load", loadH)]
 end Fabio.Driver.C19
